@@ -5,6 +5,7 @@ package main
 
 import (
 	"fmt"
+	"k8s.io/apimachinery/pkg/types"
 	"strconv"
 	"time"
 
@@ -168,7 +169,7 @@ func (p *WPod) materialise() *v1.Pod {
 // materialise builds the Kubernetes object as of second nowSec.
 func (n *WNode) materialise(nowSec int64) *v1.Node {
 	node := &v1.Node{
-		ObjectMeta: metav1.ObjectMeta{Name: n.Name, Labels: map[string]string{}, Annotations: map[string]string{}},
+		ObjectMeta: metav1.ObjectMeta{Name: n.Name, Labels: map[string]string{}, Annotations: map[string]string{}, ResourceVersion: "4711", UID: types.UID("uid-" + n.Name)},
 		Spec:       v1.NodeSpec{ProviderID: n.ProviderID, Unschedulable: n.Unschedulable, PodCIDR: n.Extra},
 	}
 	for k, v := range n.Labels {
